@@ -332,6 +332,31 @@ class Path:
         return self.branch(self.truth(v))
 
 
+def accumulator_shape(st):
+    """(steps, append-call) if the for-loop body is `[target = e;]* [if c:] NAME.append(e)` (lets may unpack tuples), else None"""
+    body = list(st.body)
+    steps = []
+    while True:
+        while len(body) > 1 and isinstance(body[0], ast.Assign) and len(body[0].targets) == 1 \
+                and isinstance(body[0].targets[0], (ast.Name, ast.Tuple)):
+            steps.append(('let', body[0].targets[0], body[0].value))
+            body = body[1:]
+        if len(body) == 1 and isinstance(body[0], ast.If) and not body[0].orelse:
+            steps.append(('if', body[0].test))
+            body = list(body[0].body)
+            continue
+        break
+    if len(body) != 1 or not isinstance(body[0], ast.Expr) or not isinstance(body[0].value, ast.Call):
+        return None
+    call = body[0].value
+    if not (isinstance(call.func, ast.Attribute) and call.func.attr == 'append' and isinstance(call.func.value, ast.Name)
+            and len(call.args) == 1 and not call.keywords):
+        return None
+    if st.orelse:
+        return None
+    return steps, call
+
+
 class LoopSpec:
     """invariant(E[, k]) -> list of (name, formula); decreases(E) -> Int term or None.
     For `for` loops over an IterV the invariant takes the ghost index k (elements 0..k-1 processed)."""
@@ -540,6 +565,11 @@ class Interp:
         counts = {}
         for node in ast.walk(extracted.node):
             if isinstance(node, (ast.While, ast.For)):
+                if isinstance(node, ast.For) and accumulator_shape(node) is not None:
+                    # `acc = []; for x in it: [y = e;] [if c:] acc.append(e)` is a comprehension written as a loop: it takes no loop
+                    # contract (closed form, see accumulator_loop) and does not shift the ordinals of the other loops
+                    self.loop_ordinals[id(node)] = -1
+                    continue
                 self.loop_ordinals[id(node)] = n
                 n += 1
         for node in sorted((x for x in ast.walk(extracted.node)
@@ -939,23 +969,10 @@ class Interp:
         empty before the loop is the list comprehension [e for x in it if c] (same elements, same order; the local bindings
         are evaluated per element, in order): handled by the comprehension closed form, so that this harmless reformulation
         needs no new invariant."""
-        body = list(st.body)
-        steps = []
-        while True:
-            while len(body) > 1 and isinstance(body[0], ast.Assign) and len(body[0].targets) == 1 and isinstance(body[0].targets[0], ast.Name):
-                steps.append(('let', body[0].targets[0].id, body[0].value))
-                body = body[1:]
-            if len(body) == 1 and isinstance(body[0], ast.If) and not body[0].orelse:
-                steps.append(('if', body[0].test))
-                body = list(body[0].body)
-                continue
-            break
-        if len(body) != 1 or not isinstance(body[0], ast.Expr) or not isinstance(body[0].value, ast.Call):
+        shape = accumulator_shape(st)
+        if shape is None:
             return False
-        call = body[0].value
-        if not (isinstance(call.func, ast.Attribute) and call.func.attr == 'append' and isinstance(call.func.value, ast.Name)
-                and len(call.args) == 1 and not call.keywords):
-            return False
+        steps, call = shape
         name = call.func.value.id
         acc = env.get(name)
         if not (isinstance(acc, ListV) and not acc.items and type(acc) is ListV):
@@ -963,7 +980,7 @@ class Interp:
         for node in ast.walk(st):            # the accumulator must not be used in the body other than by .append
             if isinstance(node, ast.Name) and node.id == name and node is not call.func.value:
                 return False
-        letnames = {s_[1] for s_ in steps if s_[0] == 'let'}
+        letnames = {n.id for s_ in steps if s_[0] == 'let' for n in ast.walk(s_[1]) if isinstance(n, ast.Name)}
         if name in letnames:
             return False
         base_env = flat_env(env)
@@ -974,7 +991,7 @@ class Interp:
             conds = []
             for s_ in steps:
                 if s_[0] == 'let':
-                    inner[s_[1]] = self.eval(s_[2], inner)
+                    self.assign(s_[1], self.eval(s_[2], inner), inner)
                 else:
                     conds.append(truthy(self.eval(s_[1], inner)))
             if want == 'cond':
